@@ -27,7 +27,7 @@ type Hidden struct {
 	Log        []string // probe log: "chk:<id>", "act:<id>", "heavy:<x>", "bump"
 	// Fault plan: the FaultAt-th probe invocation (Chk/Act, counted from 1) fails with FaultKind.
 	FaultAt   int
-	FaultKind int // 1 panic(string) 2 panic(error) 3 nil-deref 4 index
+	FaultKind int // 1 panic(string) 2 panic(error) 3 nil-deref 4 index 5 panic(int) 6 panic(struct value)
 	Probes    int
 	Faulted   []int // probe indexes at which a fault was injected
 	OnProbe   func(kind string, id int64, n int)
@@ -197,6 +197,10 @@ func (f *Fact) probe(kind string, id int64) {
 			var a []int
 			i := 3
 			_ = a[i] // runtime index out of range
+		case 5:
+			panic(404) // a payload that is neither an error nor a string
+		case 6:
+			panic(Sub{V: 7, S: "a struct value as panic payload"})
 		}
 	}
 }
